@@ -1701,4 +1701,98 @@ theorem elastic_legacy_read_cubic (fac : String → K) (eps atol rtol : K) (u : 
 
 end legacy_read
 
+/-! ## `load('system_model', record, key=, index=)`: which entry of a record is read -/
+
+section load_select
+
+/-- nothing is found inside dictionaries that do not hold the key at any depth. -/
+theorem findsL_nil (key : String) (ms : List (DM K))
+    (h : ∀ m ∈ ms, ∃ kv, m = .node kv ∧ findsKV key kv = []) : findsL key ms = [] := by
+  induction ms with
+  | nil => simp [findsL]
+  | cons m r ih =>
+    obtain ⟨kv, rfl, hk⟩ := h m (List.mem_cons_self ..)
+    rw [findsL, hk, List.nil_append]
+    exact ih (fun m' hm' => h m' (List.mem_cons_of_mem _ hm'))
+
+/-- **finds_entries**: a record that lists several systems under one key (`{key: [s₀, s₁, …]}`, none of them holding the
+    key again inside): `finds(key)` returns exactly these entries, in the order of the record — whatever else the
+    record holds under other keys that do not contain the key. -/
+theorem finds_entries (key : String) (ms : List (DM K)) (before after : List (String × DM K))
+    (h : ∀ m ∈ ms, ∃ kv, m = .node kv ∧ findsKV key kv = [])
+    (hb : findsKV key before = []) (ha : findsKV key after = []) (hkb : ∀ e ∈ before, e.1 ≠ key) :
+    (DM.node (before ++ (key, .list ms) :: after)).finds key = ms := by
+  have app : ∀ (a b : List (String × DM K)), findsKV key (a ++ b) = findsKV key a ++ findsKV key b := by
+    intro a b
+    induction a with
+    | nil => simp [findsKV]
+    | cons e r ih =>
+      obtain ⟨k, v⟩ := e
+      rw [List.cons_append, findsKV.eq_def]
+      conv_rhs => rw [findsKV.eq_def]
+      simp only [ih, List.append_assoc]
+  rw [DM.finds, app, hb, List.nil_append, findsKV, findsL_nil key ms h, ha]
+  simp
+
+
+/-- non-vacuity: a record with a header, two systems under one key and a trailer: the two entries, in order; the
+    hypotheses of `finds_entries` / `load_index` hold for it. -/
+example : (DM.node [("meta", .node [("n", .leaf (.int 1))]),
+      ("atomic-system", .list [.node [("box", .leaf (.int 1)), ("atoms", .leaf (.int 2))], .node [("box", .leaf (.int 3))]]),
+      ("tail", .leaf (.int 4))] : DM ℚ).finds "atomic-system"
+    = [.node [("box", .leaf (.int 1)), ("atoms", .leaf (.int 2))], .node [("box", .leaf (.int 3))]] := by
+  simp [DM.finds, findsKV, findsL]
+example : findsKV "atomic-system" ([("box", .leaf (.int 1)), ("atoms", .leaf (.int 2))] : List (String × DM ℚ)) = [] ∧
+    findsKV "atomic-system" ([("meta", .node [("n", .leaf (.int 1))])] : List (String × DM ℚ)) = [] := by
+  simp [findsKV]
+
+variable [Field K] [LT K] [DecidableLT K]
+
+/-- **load_index**: `load('system_model', record, key=key, index=i)` on such a record reads the `i`-th listed system
+    (`0 ≤ i < n`), and the entry counted from the end for a negative index (`-n ≤ i < 0`): exactly what
+    `System(model={'atomic-system': entry})` reads; an index outside `-n … n-1` is refused. -/
+theorem load_index (fac : String → K) (eps : K) (key : String) (ms : List (DM K)) (before after : List (String × DM K))
+    (h : ∀ m ∈ ms, ∃ kv, m = .node kv ∧ findsKV key kv = [] ∧ kv.any (fun e => e.1 == "box") = true)
+    (hb : findsKV key before = []) (ha : findsKV key after = []) (hkb : ∀ e ∈ before, e.1 ≠ key) :
+    (∀ i : Nat, ∀ hi : i < ms.length,
+      loadSystem fac eps key (i : Int) (.node (before ++ (key, .list ms) :: after))
+        = systemRead fac eps (.node [("atomic-system", ms[i])])) ∧
+    (∀ j : Nat, ∀ hj0 : 0 < j, ∀ hj : j ≤ ms.length,
+      loadSystem fac eps key (-(j : Int)) (.node (before ++ (key, .list ms) :: after))
+        = systemRead fac eps (.node [("atomic-system", ms[ms.length - j]'(by omega))])) ∧
+    (∀ i : Int, (ms.length : Int) ≤ i ∨ i < -(ms.length : Int) →
+      loadSystem fac eps key i (.node (before ++ (key, .list ms) :: after)) = none) := by
+  have hf := finds_entries key ms before after
+    (fun m hm => let ⟨kv, a, b, _⟩ := h m hm; ⟨kv, a, b⟩) hb ha hkb
+  refine ⟨?_, ?_, ?_⟩
+  · intro i hi
+    obtain ⟨kv, e, _, hbx⟩ := h ms[i] (List.getElem_mem hi)
+    simp only [loadSystem, hf, pyIndex, Int.natCast_nonneg, if_true, Int.toNat_natCast, List.getElem?_eq_getElem hi, e, hbx]
+  · intro j hj0 hj
+    have hlt : ms.length - j < ms.length := by omega
+    obtain ⟨kv, e, _, hbx⟩ := h (ms[ms.length - j]'hlt) (List.getElem_mem hlt)
+    have hneg : ¬ (0 ≤ -(j : Int)) := by omega
+    simp only [loadSystem, hf, pyIndex, hneg, if_false, Int.neg_neg, Int.toNat_natCast, hj, if_true,
+      List.getElem?_eq_getElem hlt, e, hbx]
+  · intro i hi
+    simp only [loadSystem, hf, pyIndex]
+    rcases hi with hi | hi
+    · have h0 : 0 ≤ i := by omega
+      have : ms.length ≤ i.toNat := by omega
+      simp [h0, List.getElem?_eq_none this]
+    · have h0 : ¬ (0 ≤ i) := by omega
+      have : ¬ ((-i).toNat ≤ ms.length) := by omega
+      simp [h0, this]
+
+/-- **load_default**: with the defaults (`key='atomic-system'`, `index=0`) a record holding one system at the top is
+    read as `System(model=record)` reads it. -/
+theorem load_default (fac : String → K) (eps : K) (kv : List (String × DM K))
+    (hk : findsKV "atomic-system" kv = []) (hbx : kv.any (fun e => e.1 == "box") = true) :
+    loadSystem fac eps "atomic-system" 0 (.node [("atomic-system", .node kv)])
+      = systemRead fac eps (.node [("atomic-system", .node kv)]) := by
+  rw [loadSystem, DM.finds, findsKV, hk]
+  simp [findsKV, pyIndex, hbx]
+
+end load_select
+
 end Atomman.C10
